@@ -87,6 +87,10 @@ type History struct {
 	Roots    []*Frame   // top-level frames, one per tx that got that far
 	Attempts []*Attempt // in program order
 	Problems []string   // structural problems found while parsing (stream not well nested)
+	// JournalAt: for every journal-opcode step, the innermost open CALL/CREATE attempt
+	JournalAt map[int]*Attempt
+	// Faulted: steps (by seq) whose instruction faulted while executing
+	Faulted map[int]bool
 }
 
 func memSlice(mem []byte, off, size uint64) []byte {
@@ -123,6 +127,7 @@ func BuildHistory(evs []Ev, ex int) *History {
 	nodeIdx := map[int]int{} // per EVM we cannot know; indices assigned by caller via Renumber
 	_ = nodeIdx
 	var lastStepAt = map[int]*Attempt{} // depth -> attempt opened by the last step at that depth
+	lastJournal := map[int]int{}        // depth -> seq of the last journal step at that depth (until the next step)
 
 	closeOutcome := func(depth int, e *Ev) {
 		// the next step at `depth` reveals the outcome of the attempt opened at that depth
@@ -261,6 +266,26 @@ func BuildHistory(evs []Ev, ex int) *History {
 				if e.K == evStep {
 					f.Steps = append(f.Steps, e)
 				}
+			}
+			if e.K == evStep && isJournalOp(e.Op) {
+				if h.JournalAt == nil {
+					h.JournalAt = map[int]*Attempt{}
+				}
+				if len(attStack) > 0 {
+					h.JournalAt[e.Seq] = attStack[len(attStack)-1]
+				}
+				lastJournal[e.Depth] = e.Seq
+			}
+			if e.K == evFault {
+				if s, ok := lastJournal[e.Depth]; ok {
+					if h.Faulted == nil {
+						h.Faulted = map[int]bool{}
+					}
+					h.Faulted[s] = true
+				}
+			}
+			if e.K == evStep && !isJournalOp(e.Op) {
+				delete(lastJournal, e.Depth)
 			}
 			if e.K == evStep && e.Err == "" && isCallOp(e.Op) {
 				a := &Attempt{Ex: ex, Tx: tx, Op: e.Op, Caller: e.Self, StepSeq: e.Seq, StepGas: e.Gas, StepCost: e.Cost, Depth: e.Depth, Node: -1,
